@@ -210,6 +210,20 @@ def run_case(case):
                         res["failures"].append({"kind": "dtype_prediction", "column": str(c), "predicted": str(pred_dt[str(c)]),
                                                 "got": str(got.dtypes[c]), "n_rows": len(got), **ctx})
                     counters["dtype_predictions"] = counters.get("dtype_predictions", 0) + 1
+                # the same prediction holds row group by row group (iter_row_groups goes through derived handles)
+                if not o and not repeat and len(pred_rg) > 1:
+                    try:
+                        parts = list(pf.iter_row_groups())
+                        if [len(p_) for p_ in parts] != [n_ for n_ in pred_rg if n_]:
+                            res["failures"].append({"kind": "row_group_rows_prediction", "predicted": pred_rg, "got": [len(p_) for p_ in parts], **ctx})
+                        for pi, part in enumerate(parts):
+                            for c in part.columns:
+                                if str(c) in pred_dt and not _dtype_matches(pred_dt[str(c)], part.dtypes[c]):
+                                    res["failures"].append({"kind": "dtype_prediction_row_group", "column": str(c), "part": pi, "predicted": str(pred_dt[str(c)]),
+                                                            "got": str(part.dtypes[c]), **ctx})
+                        counters["row_group_parts_predicted"] = counters.get("row_group_parts_predicted", 0) + len(parts)
+                    except Exception as e:
+                        counters["iter_raised"] = counters.get("iter_raised", 0) + 1    # C06's business
                 # categorical / partition columns
                 if "categories" not in o and want_cols is None:
                     iscat = {str(c) for c in got.columns if isinstance(got.dtypes[c], pd.CategoricalDtype)}
@@ -239,4 +253,4 @@ def run_case(case):
 
 
 def required(tier):
-    return {"optionsets_compared": 1500, "dtype_predictions": 5000, "pandas_nulls_false_compared": 500}
+    return {"optionsets_compared": 1500, "dtype_predictions": 5000, "pandas_nulls_false_compared": 500, "row_group_parts_predicted": 300}
